@@ -1,6 +1,8 @@
 SPECIFICATION Spec
 CONSTANTS
   InitStore <- MC_RaggedStore
+  Asks <- MC_AsksMain
+  RGroups <- MC_RMain
   VarLists <- MC_VarListsOne
   BaseStore <- MC_BaseStore
   CutArgs <- MC_CutsRagged
